@@ -13,7 +13,9 @@ RULE = ("operation histories on one Specifier / SpecifierSet / empty SpecifierSe
         "releases, shuffled, occasional invalid strings); filter results observed as positions (identity by `is`) and kinds of the returned "
         "objects; non-trivial = the object was constructed; distinct by program text")
 ASSUMPTIONS = ["filter() is observed through list(...): the laziness of the generator (when an InvalidVersion surfaces relative to items already "
-               "yielded) is not observed"]
+               "yielded) is not observed",
+               "numbers in generated versions stay far below the interpreter's 4300-digit int conversion limit; the model has no digit limit "
+               "(beyond it the code raises InvalidVersion since 71d4b23, finding D10) and no theorem is claimed for such inputs"]
 
 
 OPTOK = {"d", "S", "X", "L", "&", "&s", "P", "c", "in", "f", "str", "len", "pre", "eq", "eqs", "T", "F", "N", "s", "v", "1", "0", "E"}
@@ -120,9 +122,14 @@ def streams(rng, tier):
             if k < 0.25:
                 held = sorted(set().union(*members))
                 if held and rng.random() < 0.8: ci = rng.choice(held)
-                prog += ["M", ci, rng.choice(["T", "F", "N", "T", "F", "N", "1", "0"])]
-                # look at the assignment through a set that holds this object (the intersection by preference)
                 holders = [j for j in range(nsets) if ci in members[j]]
+                # the assignment goes through the harness's own reference, or (Mi) through the alias obtained by iterating a set that may hold
+                # the object - a set that does not hold it (an == object supplied earlier took its place, or it was never a member) answers !noalias
+                if rng.random() < 0.4 and (holders or rng.random() < 0.3):
+                    prog += ["Mi", str(rng.choice(holders) if holders and rng.random() < 0.85 else rng.randrange(nsets)), ci, rng.choice(["T", "F", "N", "T", "F", "N", "1", "0"])]
+                else:
+                    prog += ["M", ci, rng.choice(["T", "F", "N", "T", "F", "N", "1", "0"])]
+                # look at the assignment through a set that holds this object (the intersection by preference)
                 if holders and rng.random() < 0.8:
                     h = str(max(holders) if rng.random() < 0.6 else rng.choice(holders))
                     prog += ["pre", h, "c", h, "N", rng.choice(["N", "N", "T"]), rng.choice("sv"), pre_cand()]
